@@ -887,6 +887,9 @@ def check_L8(ctx, rep):
             if y.get('k') == 'closure':
                 clo = y; break
     if clo is None:
+        if any(v['rule'] == 'L8' for v in rep.violations):
+            rep.floor('L8.static', 5, 'statics of the library crates')
+            return          # the cell itself is already reported (not once-initialised / recomputed): nothing to bound
         raise Broken('L8: initialiser closure of the shard amount cell not found')
 
     def lower(e):
